@@ -10,6 +10,7 @@
 //
 //	vigil run <tests.json> <trace.ndjson> <results.ndjson>      command lists (projected TLC paths)
 //	vigil random <trace.ndjson> <results.ndjson> <runs> <ops> <waiters> <steps>   seeded random schedules
+//	vigil destroy <trace.ndjson> <results.ndjson>     the lost wake-up schedule on a real swamp's Destroy (own process: one rig)
 package main
 
 import (
@@ -17,6 +18,8 @@ import (
 	"fmt"
 	"math/rand"
 	"os"
+	"regexp"
+	"runtime"
 	"sort"
 	"strconv"
 	"sync"
@@ -61,6 +64,9 @@ var (
 
 func installGate() {
 	verifhook.SetYield(func(point string, args ...any) {
+		if point != "vigil.cease.dec" && point != "vigil.wait.checked" {
+			return // gates of other packages (swamp, hydra, ...) are not ours
+		}
 		gid := sched.GoID()
 		regMu.RLock()
 		p := byGoid[gid]
@@ -73,7 +79,7 @@ func installGate() {
 	})
 }
 
-func (p *proc) loop(v vigil.Vigil, ready chan struct{}) {
+func (p *proc) loop(v vigil.Vigil, waitFn func(), ready chan struct{}) {
 	p.goid = sched.GoID()
 	regMu.Lock()
 	byGoid[p.goid] = p
@@ -100,7 +106,7 @@ func (p *proc) loop(v vigil.Vigil, ready chan struct{}) {
 				v.CeaseVigil()
 				p.inCall.Store(false)
 			case "wait":
-				v.WaitForActiveVigilsClosed()
+				waitFn()
 				p.done.Store(true)
 				p.inCall.Store(false)
 			}
@@ -130,20 +136,28 @@ func (p *proc) obs(states map[int64]string) string {
 	switch states[p.goid] {
 	case "sync.Cond.Wait":
 		return "parked"
-	case "sync.Mutex.Lock", "sync.RWMutex.Lock", "semacquire":
+	case "sync.Mutex.Lock", "sync.RWMutex.Lock":
+		// (not "semacquire": that is a goroutine about to start a GC cycle waiting for the world
+		// semaphore, which the goroutine dump itself holds - it is runnable as far as the vigil goes)
 		return "mutexwait"
 	}
 	return "running"
 }
 
 type run struct {
-	v     vigil.Vigil
-	procs map[string]*proc
-	names []string
+	v      vigil.Vigil
+	waitFn func() // what a waiter calls (default: v.WaitForActiveVigilsClosed)
+	procs  map[string]*proc
+	names  []string
 }
 
-func newRun() *run {
-	r := &run{v: vigil.New(), procs: map[string]*proc{}}
+func newRun() *run { return newRunOn(vigil.New(), nil) }
+
+func newRunOn(v vigil.Vigil, waitFn func()) *run {
+	r := &run{v: v, waitFn: waitFn, procs: map[string]*proc{}}
+	if r.waitFn == nil {
+		r.waitFn = v.WaitForActiveVigilsClosed
+	}
 	for _, n := range allOps {
 		r.add(n, true)
 	}
@@ -157,7 +171,7 @@ func newRun() *run {
 func (r *run) add(n string, isOp bool) {
 	p := &proc{name: n, isOp: isOp, cmds: make(chan string, 1), gate: make(chan struct{})}
 	ready := make(chan struct{})
-	go p.loop(r.v, ready)
+	go p.loop(r.v, r.waitFn, ready)
 	<-ready
 	r.procs[n] = p
 	r.names = append(r.names, n)
@@ -167,8 +181,9 @@ func (r *run) add(n string, isOp bool) {
 func (r *run) rest() (map[string]string, bool) {
 	deadline := time.Now().Add(restTimeout)
 	var prev map[string]string
+	pause := 20 * time.Microsecond
 	for {
-		st := sched.States()
+		st := states()
 		cur := map[string]string{}
 		stable := true
 		for _, n := range r.names {
@@ -189,7 +204,31 @@ func (r *run) rest() (map[string]string, bool) {
 		if time.Now().After(deadline) {
 			return cur, false
 		}
-		time.Sleep(30 * time.Microsecond)
+		time.Sleep(pause)
+		if !stable && pause < 2*time.Millisecond {
+			pause += pause / 2 // back off: the dump stops the world, do not starve the goroutines we wait for
+		}
+	}
+}
+
+var (
+	dumpBuf = make([]byte, 1<<18)
+	hdr     = regexp.MustCompile(`(?m)^goroutine (\d+) \[([^\],]+)(?:, [^\]]*)?\]:$`)
+)
+
+// states is sched.States with a reused buffer (the driver takes tens of thousands of dumps).
+func states() map[int64]string {
+	for {
+		n := runtime.Stack(dumpBuf, true)
+		if n < len(dumpBuf) {
+			out := map[int64]string{}
+			for _, m := range hdr.FindAllSubmatch(dumpBuf[:n], -1) {
+				id, _ := strconv.ParseInt(string(m[1]), 10, 64)
+				out[id] = string(m[2])
+			}
+			return out
+		}
+		dumpBuf = make([]byte, 2*len(dumpBuf))
 	}
 }
 
@@ -281,7 +320,10 @@ func idleObs() map[string]string {
 }
 
 func execute(ti int, w *trace.Writer, next chooser, scripted int) result {
-	r := newRun()
+	return executeOn(newRun(), ti, w, next, scripted)
+}
+
+func executeOn(r *run, ti int, w *trace.Writer, next chooser, scripted int) result {
 	res := result{Test: ti, DivergedAt: -1, Scripted: scripted}
 	res.FirstLine = emit(w, "reset", command{}, idleObs(), 0)
 	obs, ok := r.rest()
@@ -479,6 +521,8 @@ func main() {
 		steps, _ := strconv.Atoi(os.Args[7])
 		seed, _ := strconv.ParseInt(os.Getenv("VERIF_SEED"), 10, 64)
 		err = runRandom(os.Args[2], os.Args[3], runs, nops, nw, steps, seed)
+	case "destroy":
+		err = destroyScenario(os.Args[2], os.Args[3])
 	default:
 		err = fmt.Errorf("unknown mode %q", os.Args[1])
 	}
